@@ -555,6 +555,14 @@ theorem lock_is_mutex (k : ShmKey) (o : ObjId) (g : G) (as : List Action)
           cases a with
           | start t op => simp only [exec]; rw [start_log]; exact ⟨Nat.le_refl _, Nat.le_refl _⟩
           | kill p => exact ⟨Nat.le_refl _, Nat.le_refl _⟩
+          | fail t e =>
+            simp only [exec]
+            cases hc : g.calls t with
+            | none => rw [fail_none g t e hc]; exact ⟨Nat.le_refl _, Nat.le_refl _⟩
+            | some c =>
+              rw [fail_log g t e c hc]
+              simp only [acquired, released, List.filter_cons]
+              constructor <;> split <;> simp
           | step t i =>
             simp only [exec]
             cases hc : g.calls t with
@@ -838,6 +846,7 @@ theorem noShmUnlinkB_spec (k : ShmKey) (as : List Action) : ∀ g, noShmUnlinkB 
       exact h1
     | start t op => trivial
     | kill p => trivial
+    | fail t e => trivial
 
 /-- process 0 has created name 0 (64 bytes); then processes 1 and 2 open it (16 bytes / whole segment)
     with their system calls strictly alternating, while process 0 stores a byte in between -/
